@@ -255,12 +255,23 @@ theorem freeClusters_spec (host n : Nat) (fz : Bool) (d d' : Dev)
   · intro c hc
     rw [a, if_neg hc]
 
-/-- a refcount is never taken below zero: on a zero entry `free_clusters` panics
-    (`decrement().unwrap()`) and the state is untouched -/
-theorem freeClusters_zero_panics (host n : Nat) (fz : Bool) (d : Dev)
+/-- a refcount is never taken below zero: on a zero entry `free_clusters` fails with
+    `Err invalid` and the state is untouched.
+    CHANGED (was `freeClusters_zero_panics`, result `.panic "…decrement-unwrap"`): the
+    code now returns an error there instead of panicking. -/
+theorem freeClusters_zero_invalid (host n : Nat) (fz : Bool) (d : Dev)
     (hrt : ¬ RT.isZero (rtEntryAt d host)) (h0 : d.rc.get (host / d.info.clusterSize) = 0) :
-    freeClusters host (n + 1) fz d = (d, .panic "alloc.rs:free_clusters:decrement-unwrap") := by
+    freeClusters host (n + 1) fz d = (d, .err .invalid) := by
   rw [freeClusters_succ, if_neg hrt, if_pos h0]
+
+/-- NEW (consequence of the same change): `free_clusters` never panics, and its only
+    errors are `other` (a cluster without refblock) and `invalid` (refcount already 0) -/
+theorem freeClusters_never_panics (host n : Nat) (fz : Bool) (d : Dev) :
+    (∀ p, (freeClusters host n fz d).2 ≠ .panic p) ∧
+    (∀ e, (freeClusters host n fz d).2 = .err e → e = .other ∨ e = .invalid) := by
+  refine ⟨fun p => freeClusters_nopanic host n fz d p, fun e he => ?_⟩
+  exact freeClusters_err (host := host) (n := n) (fz := fz) (d := d)
+    (d' := (freeClusters host n fz d).1) (by rw [← he])
 
 /-- `free_clusters` succeeds iff every cluster has a refblock (non-zero reftable
     entry) and a refcount ≥ 1 -/
@@ -338,6 +349,10 @@ theorem alloc_then_free_succeeds (off count : Nat) (fixed fz : Bool) (d d1 : Dev
 `Err nospace`, a value no other path of these functions produces.  Under the
 geometry equations the fuel the model passes is sufficient: the loops return
 before it runs out, so the result is the same for every larger fuel.
+(CHANGED with reftable growth: for the outer loop this now needs a hypothesis —
+`ensure_refblock_offset` grows the table instead of failing at its end, so the loop can
+run past the `rtLen + 2` iterations the model provides; see
+`allocateClusters_fuel_sufficient`.  The inner loop is unaffected.)
 
 The measure of `tryAllocateLoop` (`Qv.Model.loopMeasure`) is
 `2 * (refblock slices from the slice of host up to rbEnd) + (done ≠ 0 ? 1 : 0)`:
@@ -356,7 +371,8 @@ theorem tryAllocateLoop_unfold (rbEnd allocCnt fuel host count outOff done : Nat
   tryAllocateLoop_succ rbEnd allocCnt fuel host count outOff done d
 
 /-- every iteration either returns (never with the fuel error) or strictly
-    decreases the measure; `info`, `rtLen`, `rt` are never touched -/
+    decreases the measure; `info`, `rtLen`, `rt` (and, since the reftable-growth change,
+    the header's `refcount_table_clusters`: `SameMeta` was strengthened) are never touched -/
 theorem tryAllocateLoop_step_progress (rbEnd allocCnt host count outOff done : Nat) (d : Dev)
     (g : Geom d.info) :
     match loopStep rbEnd allocCnt host count outOff done d with
@@ -404,27 +420,61 @@ theorem tryAllocateFrom_never_nospace (host allocCnt : Nat) (d : Dev) (g : Geom 
   tryAllocateFrom_no_nospace host allocCnt d g
 
 /-- outer loop of `allocate_clusters`: one reftable entry per iteration, so
-    `rtLen - rtIndex(hostOff) + 1` iterations suffice -/
+    `rtCap - rtIndex(hostOff) + 1` iterations suffice.
+    CHANGED (reftable growth): the bound was `d.rtLen - rtIndex hostOff`; the loop now
+    continues beyond the end of the table (`ensure_refblock_offset` grows it) until the
+    growth is refused, so the bound is taken against `rtCap d`, the length the table can
+    reach (`Qv/Proofs/Grow.lean`; `rtCap d = d.rtLen` when it cannot grow). -/
 theorem allocateLoop_fuel_irrelevant (count f1 f2 hostOff : Nat) (d : Dev) (g : Geom d.info)
-    (h1 : d.rtLen - Host.rtIndex d.info hostOff < f1)
-    (h2 : d.rtLen - Host.rtIndex d.info hostOff < f2) :
+    (h1 : rtCap d - Host.rtIndex d.info hostOff < f1)
+    (h2 : rtCap d - Host.rtIndex d.info hostOff < f2) :
     allocateLoop count f1 hostOff d = allocateLoop count f2 hostOff d :=
   (allocateLoop_fuel_aux count f1 hostOff d g h1).1 f2 h2
 
-/-- `allocate_clusters`: the fuel `rtLen + 2` is sufficient -/
+/-- … and with that much fuel the fuel-exhaustion branch is not taken -/
+theorem allocateLoop_never_exhausts (count f hostOff : Nat) (d : Dev) (g : Geom d.info)
+    (h : rtCap d - Host.rtIndex d.info hostOff < f) :
+    (allocateLoop count f hostOff d).2 ≠ .err .nospace :=
+  (allocateLoop_fuel_aux count f hostOff d g h).2
+
+/-- `allocate_clusters`: the fuel `rtLen + 2` is sufficient.
+    CHANGED (reftable growth): FALSE as it was stated (for every `d`): the fuel counts
+    the entries of the present table, and the loop can now run past them.  It holds
+    when the entries between the hint and the growth bound are no more than the fuel
+    (hypothesis `hcap`), in particular when the table cannot grow
+    (`allocateClusters_fuel_sufficient_noGrow`). -/
 theorem allocateClusters_fuel_sufficient (count : Nat) (d : Dev) (g : Geom d.info)
+    (hcap : rtCap d - Host.rtIndex d.info d.hint < d.rtLen + 2)
     (f : Nat) (hf : d.rtLen + 2 ≤ f) :
     allocateClusters count d = allocateLoop count f d.hint d := by
   unfold allocateClusters
-  exact (allocateLoop_fuel_aux count (d.rtLen + 2) d.hint d g (by omega)).1 f (by omega)
+  exact (allocateLoop_fuel_aux count (d.rtLen + 2) d.hint d g hcap).1 f (by omega)
 
-/-- hence the model's `allocateClusters` never reports fuel exhaustion: it ends
-    with a result, a panic, or an error of `ensure_refblock_offset` /
-    `free_clusters` -/
-theorem allocateClusters_never_nospace (count : Nat) (d : Dev) (g : Geom d.info) :
+/-- the statement as it was before reftable growth, for a table that cannot grow -/
+theorem allocateClusters_fuel_sufficient_noGrow (count : Nat) (d : Dev) (g : Geom d.info)
+    (hn : NoGrow d) (f : Nat) (hf : d.rtLen + 2 ≤ f) :
+    allocateClusters count d = allocateLoop count f d.hint d :=
+  allocateClusters_fuel_sufficient count d g (by rw [rtCap_of_noGrow hn]; omega) f hf
+
+/-- hence the model's `allocateClusters` does not report fuel exhaustion: it ends
+    with a result, or an error of `ensure_refblock_offset` / `free_clusters`.
+    CHANGED: needs `hcap`, see `allocateClusters_fuel_sufficient`. -/
+theorem allocateClusters_never_nospace (count : Nat) (d : Dev) (g : Geom d.info)
+    (hcap : rtCap d - Host.rtIndex d.info d.hint < d.rtLen + 2) :
     (allocateClusters count d).2 ≠ .err .nospace := by
   unfold allocateClusters
-  exact (allocateLoop_fuel_aux count (d.rtLen + 2) d.hint d g (by omega)).2
+  exact (allocateLoop_fuel_aux count (d.rtLen + 2) d.hint d g hcap).2
+
+theorem allocateClusters_never_nospace_noGrow (count : Nat) (d : Dev) (g : Geom d.info)
+    (hn : NoGrow d) : (allocateClusters count d).2 ≠ .err .nospace :=
+  allocateClusters_never_nospace count d g (by rw [rtCap_of_noGrow hn]; omega)
+
+/-- NEW: the table never shrinks under `allocate_clusters`, and the growth bound never rises -/
+theorem allocateLoop_rtLen_mono (count f hostOff : Nat) (d : Dev) :
+    (allocateLoop count f hostOff d).1.info = d.info ∧
+    d.rtLen ≤ (allocateLoop count f hostOff d).1.rtLen ∧
+    rtCap (allocateLoop count f hostOff d).1 ≤ rtCap d :=
+  Model.allocateLoop_rtLen_mono count f hostOff d
 
 /-- fuel monotonicity without any geometry assumption: whenever a loop did not
     run out of fuel, more fuel gives the same result -/
@@ -611,10 +661,9 @@ example : ∃ d', freeClusters 0 2 true devEx = (d', .ok ()) ∧ d'.rc.get 0 = 0
   · have := e rfl 0 (by omega) (by rw [devEx_rc]; simp)
     omega
 
-/-- freeing a free cluster (cluster 2) panics and changes nothing -/
-example : freeClusters 0x20000 1 true devEx
-    = (devEx, .panic "alloc.rs:free_clusters:decrement-unwrap") :=
-  freeClusters_zero_panics 0x20000 0 true devEx (devEx_rt _ (by decide)) (by
+/-- freeing a free cluster (cluster 2) fails with `invalid` and changes nothing -/
+example : freeClusters 0x20000 1 true devEx = (devEx, .err .invalid) :=
+  freeClusters_zero_invalid 0x20000 0 true devEx (devEx_rt _ (by decide)) (by
     have : 0x20000 / devEx.info.clusterSize = 2 := by decide
     rw [this, devEx_rc]; simp)
 
@@ -626,9 +675,17 @@ example : ∃ d1 d2, tryAllocFromRbSlice 0 2 false devEx = (d1, .ok (some (0x400
     (by decide) (devEx_rt 0 (by decide)) h
   exact ⟨d1, d2, h, h2, h3⟩
 
-/-- the fuel theorems apply to the example device -/
-example : (allocateClusters 3 devEx).2 ≠ .err .nospace :=
-  allocateClusters_never_nospace 3 devEx geomEx
+/-- the fuel theorems apply to the example device: its table (1 entry, nothing on
+    disk) can grow, up to `rtCap` entries -/
+example : rtCap devEx = 268419072 ∧ ¬ NoGrow devEx := by decide
+example : (allocateLoop 3 (rtCap devEx + 1) devEx.hint devEx).2 ≠ .err .nospace :=
+  allocateLoop_never_exhausts 3 _ devEx.hint devEx geomEx (by omega)
+/-- a table of the largest size the relocation supports cannot grow, and there the
+    model's fuel `rtLen + 2` is sufficient -/
+def devFull : Dev := { devEx with rtLen := 268427264, hdrRtClusters := 32767 }
+example : NoGrow devFull := by decide
+example : (allocateClusters 3 devFull).2 ≠ .err .nospace :=
+  allocateClusters_never_nospace_noGrow 3 devFull geomEx (by decide)
 example : loopMeasure infoEx (Host.rbHostEnd infoEx 0x50000) 0x50000 3 0 = 32 := by decide
 example : 2 * (infoEx.rbEntries / max infoEx.rbSliceEntries 1 + 2 + 3) + 4 = 46 := by decide
 
